@@ -25,6 +25,7 @@ RULE = (
     "present or two of the limits (demand+queue/T, capacity, space, desired flow) are within 1% of each other. "
     "Distinct = SHA-1 of the case."
 )
+RULE += ' Closed origins (C=0) are a quarter of the primitive cases.'
 BUDGET = {"quick": {"examples": 1500, "shards": 4}, "thorough": {"fuzz_runs": 3000, "examples": 8000, "shards": 16}}
 EXPECTED_LABELS = ("prim:main", "prim:ramp_in", "prim:ramp_out", "prim:simp_lim", "engine:numpy", "engine:DM", "engine:SX", "engine:MX",
                    "network", "corner", "close-limits", "rho_first=rho_max", "interior-ramp", "origin:main", "origin:ramp_in",
